@@ -116,7 +116,7 @@ def builtin_no_float(nd: int, use_nd: bool) -> None:
 
 POOL = ['0.1', '0.2', '0.3', '1', '3', '7', '0.7', '2.675', '1.10', '10000000000000000000000000001', '9007199254740993',
         '0.000000000000000000000000000001', '9999999999999999999999999998', '0.5', '3000000000000000000000000001',
-        '0.0000000000000000000000000005', '9999999999999999999999999999', '1.5']
+        '0.0000000000000000000000000005', '9999999999999999999999999999', '1.5', '9007199254740992', '0.30000000000000001']
 
 
 def _round28(fr):
@@ -139,27 +139,36 @@ def _round28(fr):
     return sign * Fraction(q) * Fraction(10) ** e
 
 
-def arithmetic_exact(i: int, j: int, neg: bool) -> None:
+def arithmetic_exact(i: int, j: int, neg: bool, computed: int = 0) -> None:
     """
-    pre: 0 <= i < 18 and 0 <= j < 18
+    pre: 0 <= i < 20 and 0 <= j < 20 and 0 <= computed <= 2
     post: True
     """
     hlib.enter(locals())
     op = hlib.PARAM["op"]
-    i, j, neg = hlib.concrete(i, 0, 17), hlib.concrete(j, 0, 17), (True if neg else False)
+    i, j, neg = hlib.concrete(i, 0, 19), hlib.concrete(j, 0, 19), (True if neg else False)
+    computed = hlib.concrete(computed, 0, 2)
     with hlib.native():
-        ok, msg = _exact_case(op, i, j, neg)
+        ok, msg = _exact_case(op, i, j, neg, computed)
     assert ok, msg
     hlib.done()
 
 
-def _exact_case(op, i, j, neg):
+def _exact_case(op, i, j, neg, computed=0):
     a, b = POOL[i], POOL[j]
-    text = ("-" if neg else "") + a + " " + op + " " + b
+    # computed = 1 / 2: the left / right operand is the RESULT of an operation (x + 0), not a literal
+    left = ("-" if neg else "") + a
+    ta = "(" + left + " + 0)" if computed == 1 else left
+    tb = "(" + b + " + 0)" if computed == 2 else b
+    text = ta + " " + op + " " + tb
     out = run_eval(text, {}, 100, parser=PARSER)
     fa, fb = Fraction(a), Fraction(b)
     if neg:
         fa = _round28(-fa)          # unary minus is itself an operation under the 28-digit context
+    if computed == 1:
+        fa = _round28(fa)
+    if computed == 2:
+        fb = _round28(fb)
     if op in ('+', '-', '*', '/'):
         exact = {'+': fa + fb, '-': fa - fb, '*': fa * fb, '/': fa / fb}[op]
         return (out[0] == 'ok' and Fraction(out[1]) == _round28(exact)), \
@@ -254,9 +263,11 @@ def after_failure(fi: int, twice: bool) -> None:
 
 
 # numeric builtins applied to expression trees: compared with exact rationals
-BPOOL = ['0', '-1', '3', '-0.25', '0.5', '(1 - 1)', '(0.5 - 1)', '2.5', '-1.5', '0.0', '10000000000000000000000000001', '(0.1 + 0.2)', '-0.0']
+BPOOL = ['0', '-1', '3', '-0.25', '0.5', '(1 - 1)', '(0.5 - 1)', '2.5', '-1.5', '0.0', '10000000000000000000000000001', '(0.1 + 0.2)', '-0.0',
+         '1234.5678', '1250', '15', '-1350', '25']
 BVAL = [Fraction(0), Fraction(-1), Fraction(3), Fraction(-1, 4), Fraction(1, 2), Fraction(0), Fraction(-1, 2), Fraction(5, 2), Fraction(-3, 2),
-        Fraction(0), Fraction(10000000000000000000000000001), Fraction(3, 10), Fraction(0)]
+        Fraction(0), Fraction(10000000000000000000000000001), Fraction(3, 10), Fraction(0),
+        Fraction('1234.5678'), Fraction(1250), Fraction(15), Fraction(-1350), Fraction(25)]
 
 
 def _half_even(fr, nd=0):
@@ -300,8 +311,9 @@ def _builtin_case(fn, form, i, j, k):
         text = "%s(%s)" % (fn, A) if form % 2 == 0 else "%s | %s" % (A, fn)
         exp = {'abs': lambda: abs(a), 'floor': lambda: Fraction(_m.floor(a)), 'ceil': lambda: Fraction(_m.ceil(a)),
                'int': lambda: Fraction(int(a)), 'round': lambda: _half_even(a)}[fn]()
-        if fn == 'round' and form >= 2:
-            text, exp = "round(%s, 1)" % A, _half_even(a, 1)
+        if fn == 'round' and form >= 1:
+            nd = {1: 1, 2: -1, 3: -2}[form]
+            text, exp = "round(%s, %s)" % (A, "0 - %d" % -nd if nd < 0 else str(nd)), _half_even(a, nd)
     out = run_eval(text, {}, 100, parser=PARSER)
     if out[0] != 'ok':
         # an error is acceptable only where the exact result does not fit 28 significant digits (e.g. round(x, 1) of a 29-digit x)
@@ -313,18 +325,18 @@ def _builtin_case(fn, form, i, j, k):
 
 def builtin_exact(form: int, i: int, j: int, k: int) -> None:
     """
-    pre: 0 <= form <= 3 and 0 <= i < 13 and 0 <= j < 13 and 0 <= k < 13
+    pre: 0 <= form <= 3 and 0 <= i < 18 and 0 <= j < 18 and 0 <= k < 18
     post: True
     """
     hlib.enter(locals())
     fn = hlib.PARAM["fn"]
-    form, i = hlib.concrete(form, 0, 3), hlib.concrete(i, 0, 12)
+    form, i = hlib.concrete(form, 0, 3), hlib.concrete(i, 0, 17)
     bad = None
     with hlib.native():
         # the solver picks the call form and the first operand; the other operands are looped over natively
         multi = fn in ('min', 'max', 'sum')
-        for jj in (range(13) if multi and form != 2 else [0]):
-            for kk in (range(13) if multi and form == 0 else [0]):
+        for jj in (range(18) if multi and form != 2 else [0]):
+            for kk in (range(18) if multi and form == 0 else [0]):
                 ok, msg = _builtin_case(fn, form, i, jj, kk)
                 if not ok:
                     bad = msg
